@@ -13,7 +13,10 @@ _vravel = jax.vmap(jnp.ravel, in_axes=0, out_axes=0)
 
 
 def _history_to_matrix(history: Position) -> Array:
-    return jnp.column_stack([_vravel(x) for x in history.values()])
+    # Columns must follow the order of ``ravel_pytree(position)`` (sorted keys), which
+    # is the coordinate order of the flat position the inverse mass matrix scales.
+    leaves = jax.tree_util.tree_leaves(history)
+    return jnp.column_stack([_vravel(x) for x in leaves])
 
 
 def tune_inv_mm_diag(history: Position) -> Array:
